@@ -575,6 +575,8 @@ def generated_pool(ctx: Ctx, k: int) -> list[tuple[str, list[str]]]:
 
 
 def run(ctx: Ctx, driver_ok: bool) -> None:
+    import warnings
+    warnings.simplefilter('ignore')
     drv = Driver('drv_c18') if driver_ok else None
     ctx.known.extend(f for f in load_findings() if f.get('property') == 'C18')
     old_interval = sys.getswitchinterval()
